@@ -44,6 +44,8 @@ def env_map(name, t, a, d, ed):
         return a % d, t % ed, 0
     if name == "CSP":
         return t, (a + t) % ed, t * a + a
+    if name == "SX":
+        return (t + 1) % d, a, t
     raise ValueError(name)
 
 
